@@ -1,4 +1,6 @@
 import Props.C18
+import Props.C10
+import SdxProofs.SubsFrom
 import Props.C11
 set_option linter.unusedSectionVars false
 /-!
@@ -139,5 +141,190 @@ theorem C01_leaf_values_inside (E : Env α) (c : FCtx α) (root : List (Ival α)
       exact hh.1 _ (List.mem_map.mpr ⟨r, hr, rfl⟩)
     · have := hN.inside r hr j hj hroot
       exact ⟨this.1, this.2.1⟩
+
+/-! ## Whole harvests: every released range, refined buckets included -/
+
+/-- a node of one of the trees the forest hands out -/
+def InForest (E : Env α) (F : Forest α) (m : Node α) : Prop :=
+  ∃ fuel comb t, 1 ≤ comb.length ∧ F.tree? E fuel comb = some t ∧ Node.Sub m t
+
+theorem inForest_childClosed (E : Env α) (F : Forest α) : ChildClosed (InForest E F) := by
+  intro d s ch p ⟨fuel, comb, t, hk, ht, hsub⟩ hp
+  exact ⟨fuel, comb, t, hk, ht, (Node.Sub.child _ d s ch p hp (Node.Sub.refl _)).trans hsub⟩
+
+/-- the sub-nodes of every node of every forest tree are nodes of forest trees -/
+theorem forest_subsFrom (E : Env α) (inp : ForestIn α) (F : Forest α) (hinit : Forest.init E inp = .ok F) :
+    ∀ (fuel : Nat) (comb : List Nat) (t : Node α), 1 ≤ comb.length → F.tree? E fuel comb = some t →
+      SubsFrom (InForest E F) t := by
+  obtain ⟨_, _, _, _, _, ht1⟩ := forest_init_trees1 E inp F hinit
+  intro fuel
+  induction fuel with
+  | zero => intro comb t _ h; simp [Forest.tree?] at h
+  | succ fuel IH =>
+    intro comb t hk h
+    by_cases h1 : ∃ j, comb = [j]
+    · obtain ⟨j, rfl⟩ := h1
+      rw [Forest.tree?] at h
+      obtain ⟨hj, rfl⟩ := List.getElem?_eq_some_iff.mp h
+      have := ht1 j hj
+      simp only [tree1, Option.bind_eq_some_iff] at this
+      obtain ⟨t0, hb, hp⟩ := this
+      have h0 : SubsFrom (InForest E F) (mkLeaf E F.ctx [j] [] (treeBaseSeed E inp.names [j]) []
+          [F.rootSnapped0.getD j default] 0) := by
+        unfold mkLeaf; exact SubsFrom.leaf _ _ _ (fun s hs => by simp at hs)
+      exact pushDown_subsFrom _ E F.ctx 4000 t0 _ (buildRows_subsFrom _ (inForest_childClosed E F) E F.ctx _ _ t0 h0 hb) hp
+    · rw [Forest.tree?] at h
+      · split at h
+        · cases h
+        · rename_i subTrees hm
+          have hall := mapM_option_some _ _ _ hm
+          have h0 : SubsFrom (InForest E F) (mkLeaf E F.ctx comb [] (treeBaseSeed E F.names comb) (subTrees.map some)
+              (comb.map fun j => F.snapped.getD j default) 0) := by
+            unfold mkLeaf
+            apply SubsFrom.leaf
+            intro s hs
+            rw [List.mem_map] at hs
+            obtain ⟨s', hs', hse⟩ := hs
+            simp only [Option.some.injEq] at hse
+            subst hse
+            obtain ⟨sc, hsc, hts⟩ := forall₂_mem_right hall s' hs'
+            have hk2 : 2 ≤ comb.length := by
+              match comb, hk, h1 with
+              | [j], _, h1 => exact absurd ⟨j, rfl⟩ h1
+              | _ :: _ :: _, _, _ => simp
+            rw [genCombinations_pred comb.length hk2] at hsc
+            obtain ⟨i, hi, rfl⟩ := List.mem_map.mp hsc
+            refine ⟨fuel, _, s', ?_, hts, Node.Sub.refl _⟩
+            simp only [List.length_map, List.length_eraseIdx, List.length_range]
+            have := List.mem_range.mp hi
+            split_ifs <;> omega
+          exact buildRows_subsFrom _ (inForest_childClosed E F) E F.ctx 0 _ t h0 h
+      · intro j hj; exact h1 ⟨j, hj⟩
+
+/-- everything reachable from a forest tree — through children and sub-nodes, to any depth — is a node of a forest tree -/
+theorem reach_inForest (E : Env α) (inp : ForestIn α) (F : Forest α) (hinit : Forest.init E inp = .ok F) (t m : Node α)
+    (ht : InForest E F t) (hr : Reach t m) : InForest E F m := by
+  refine reach_of_subsFrom (InForest E F) (inForest_childClosed E F) ?_ t ht m hr
+  intro n ⟨fuel, comb, t', hk, ht', hsub⟩
+  exact SubsFrom.sub hsub (forest_subsFrom E inp F hinit fuel comb t' hk ht')
+
+/-- every node of a forest tree is a node of a tree that satisfies the invariant (with exemptions only for folded
+outliers in single-column trees) -/
+theorem inForest_invariant (E : Env α) (inp : ForestIn α) (F : Forest α) (hinit : Forest.init E inp = .ok F)
+    (hn : 0 < inp.raw.size) (m : Node α) (hm : InForest E F m) :
+    ∃ rr out t, TInvO E F.ctx rr out t ∧ Node.Sub m t := by
+  obtain ⟨fuel, comb, t, hk, ht, hsub⟩ := hm
+  by_cases h2 : 2 ≤ comb.length
+  · obtain ⟨_, hT⟩ := C18_forest_tree E inp F hinit hn fuel comb t hk ht
+    exact ⟨_, [], t, TInvO.ofTInv (hT h2).1, hsub⟩
+  · obtain ⟨j, rfl⟩ : ∃ j, comb = [j] := by
+      match comb, hk, h2 with
+      | [j], _, _ => exact ⟨j, rfl⟩
+      | _ :: _ :: _, _, h2 => simp at h2
+    cases fuel with
+    | zero => simp [Forest.tree?] at ht
+    | succ fuel =>
+      rw [Forest.tree?] at ht
+      obtain ⟨hj, rfl⟩ := List.getElem?_eq_some_iff.mp ht
+      obtain ⟨out, hTO, _⟩ := C18_forest_trees1 E inp F hinit hn j hj
+      exact ⟨_, out, _, hTO, hsub⟩
+
+/-- C01, ranges of every bucket of every harvest: each range released for a column — leaf buckets, branch buckets
+and buckets assembled by refinement alike — is the released range, for that column, of a node of a forest tree that
+is a branch or a filter-passing leaf; and that node belongs to a tree satisfying the invariant. -/
+theorem C01_bucket_ranges_in_forest [Inhabited α] (E : Env α) (inp : ForestIn α) (F : Forest α)
+    (hinit : Forest.init E inp = .ok F) (hn : 0 < inp.raw.size) (hlt : 0 ≤ F.ctx.ap.supp.lt) (fuel : Nat) (comb : List Nat)
+    (hk : 1 ≤ comb.length) (t : Node α) (ht : F.tree? E fuel comb = some t) (stream : List Nat) (bs : List (BCell α)) (n : Nat)
+    (h : harvest E F.ctx t stream = .ok (bs, n)) :
+    ∀ b ∈ bs, b.ivs.length = comb.length ∧ ∀ pos < b.ivs.length, ∃ m j rr out t',
+      Releasable E F.ctx m ∧ Node.Sub m t' ∧ TInvO E F.ctx rr out t' ∧ j < m.data.comb.length ∧
+      b.ivs.getD pos default = m.bucketIntervals.getD j default ∧ m.data.comb.getD j 0 = comb.getD pos 0 := by
+  obtain ⟨⟨hc, _, hsh⟩, _⟩ := C18_forest_tree E inp F hinit hn fuel comb t hk ht
+  intro b hb
+  obtain ⟨hl, hr⟩ := C10_bucket_ranges E F.ctx hlt t hsh stream bs n h b hb
+  rw [hc] at hl hr
+  refine ⟨hl, fun pos hpos => ?_⟩
+  obtain ⟨m, j, hreach, hrel, _, hj, hiv, hcol⟩ := hr pos hpos
+  have hmF := reach_inForest E inp F hinit t m ⟨fuel, comb, t, hk, ht, Node.Sub.refl _⟩ hreach
+  obtain ⟨rr, out, t', hT, hsub⟩ := inForest_invariant E inp F hinit hn m hmF
+  exact ⟨m, j, rr, out, t', hrel, hsub, hT, hj, hiv, hcol⟩
+
+/-- a releasable node — a branch, or a leaf passing the filter — of a tree satisfying the invariant passed the
+low-count filter on rows it holds (folded outliers included) -/
+theorem releasable_licence (E : Env α) (c : FCtx α) (rr : List (Ival α)) (out : List Nat) (t m : Node α)
+    (hT : TInvO E c rr out t) (hs : Node.Sub m t) (hrel : Releasable E c m) :
+    ∃ h0 : List Nat, h0.Subperm m.allRows ∧
+      (c.kind.newEntity.addMany (h0.map c.pidRow)).isLowCount E c.ap.salt c.ap.supp = false := by
+  have := TInvO.sub hs hT
+  cases this with
+  | leaf d subs rows hN =>
+    obtain ⟨hist, hperm, hc⟩ := hN.counter
+    have hover := hrel rfl
+    simp only [Node.overThreshold, Node.data, Bool.not_eq_true'] at hover
+    refine ⟨hist, by rw [Node.allRows_leaf]; exact hperm.subperm, ?_⟩
+    rw [← hc]; exact hover
+  | branch d subs ch hN hB hC => exact hB.licence
+
+/-- C01, backing (explicit ids): a releasable node holds at least `low_threshold` distinct non-null entities in every
+id column (entities whose rows were folded in as outliers count towards the node, as the property says). -/
+theorem C01_node_backed_generic (E : Env α) (c : FCtx α) (rr : List (Ival α)) (out : List Nat) (t m : Node α)
+    (hT : TInvO E c rr out t) (hs : Node.Sub m t) (hrel : Releasable E c m)
+    (dims cap : Nat) (hk : c.kind = .generic dims cap) (hrows : ∀ r, (c.pidRow r).length = dims)
+    (hcap : c.ap.supp.lt ≤ (cap : Int)) :
+    ∀ k < dims, c.ap.supp.lt ≤ ((entitySet (idColumn (m.allRows.map c.pidRow) k)).card : Int) := by
+  obtain ⟨h0, hsub, hlow⟩ := releasable_licence E c rr out t m hT hs hrel
+  intro k hkd
+  rw [hk] at hlow
+  have h1 := C02_saturating_counter_floor E c.ap.salt c.ap.supp cap dims (h0.map c.pidRow)
+    (by intro r hr; obtain ⟨x, _, rfl⟩ := List.mem_map.mp hr; exact hrows x) hcap hlow k hkd
+  have h2 := Finset.card_le_card (entitySet_mono_subset (h0.map c.pidRow) (m.allRows.map c.pidRow)
+    (List.map_subset c.pidRow hsub.subset) k)
+  have : ((entitySet (idColumn (h0.map c.pidRow) k)).card : Int) ≤
+      ((entitySet (idColumn (m.allRows.map c.pidRow) k)).card : Int) := by exact_mod_cast h2
+  omega
+
+/-- C01, backing (implicit row ids): a releasable node holds at least `low_threshold` rows with a non-null id. -/
+theorem C01_node_backed_unique (E : Env α) (c : FCtx α) (rr : List (Ival α)) (out : List Nat) (t m : Node α)
+    (hT : TInvO E c rr out t) (hs : Node.Sub m t) (hrel : Releasable E c m) (hk : c.kind = .unique) :
+    c.ap.supp.lt ≤ (nonNullRows (m.allRows.map c.pidRow) : Int) := by
+  obtain ⟨h0, hsub, hlow⟩ := releasable_licence E c rr out t m hT hs hrel
+  rw [hk] at hlow
+  obtain ⟨sd, hsd⟩ := addMany_unique (h0.map c.pidRow) 0 0
+  simp only [CounterKind.newEntity] at hlow
+  rw [hsd] at hlow
+  simp only [ECounter.isLowCount, ECounter.trackers] at hlow
+  have h1 : c.ap.supp.lt ≤ ((0 + nonNullRows (h0.map c.pidRow) : Nat) : Int) := by
+    by_contra hlt
+    have := C02_floor E c.ap.salt c.ap.supp [(((0 + nonNullRows (h0.map c.pidRow) : Nat) : Int), sd)] _ sd (by simp) (not_le.mp hlt)
+    rw [this] at hlow; cases hlow
+  have h2 : nonNullRows (h0.map c.pidRow) ≤ nonNullRows (m.allRows.map c.pidRow) := by
+    simp only [nonNullRows, List.countP_map]
+    exact hsub.countP_le _
+  omega
+
+/-- C01, "whose own values fall inside it": every row a node holds that was not folded in as an outlier (and lies in
+the tree's root range) has its value, in every column, inside the range the node releases for that column. -/
+theorem C01_node_values_inside (E : Env α) (c : FCtx α) (rr : List (Ival α)) (out : List Nat) (t m : Node α)
+    (hT : TInvO E c rr out t) (hs : Node.Sub m t) (r : Nat) (hr : r ∈ m.allRows) (hout : r ∉ out) (j : Nat)
+    (hj : j < m.data.comb.length)
+    (hroot : (rr.getD j default).lo ≤ c.value r (m.data.comb.getD j 0) ∧ c.value r (m.data.comb.getD j 0) ≤ (rr.getD j default).hi) :
+    (m.bucketIntervals.getD j default).lo ≤ c.value r (m.data.comb.getD j 0) ∧
+    c.value r (m.data.comb.getD j 0) ≤ (m.bucketIntervals.getD j default).hi := by
+  have hsh := (TInvO.sub hs hT).shape
+  rw [bucketIntervals_getD hsh j hj]
+  have facts : (∀ r ∈ inRows out m.allRows, RowInside c rr m.data r) ∧
+      (∀ j < m.data.comb.length, HullOf (m.data.actual.getD j default) ((inRows out m.allRows).map fun r => c.value r (m.data.comb.getD j 0))) := by
+    have := TInvO.sub hs hT
+    cases this with
+    | leaf d subs rows hN =>
+      refine ⟨?_, ?_⟩
+      · have := hN.inside; rw [Node.allRows_leaf]; exact this
+      · have := hN.hull; rw [Node.allRows_leaf]; exact this
+    | branch d subs ch hN hB hC => exact ⟨hN.inside, hN.hull⟩
+  have hin : r ∈ inRows out m.allRows := mem_inRows.mpr ⟨hr, hout⟩
+  split_ifs with hsing
+  · exact (facts.2 j hj).1 _ (List.mem_map.mpr ⟨r, hin, rfl⟩)
+  · have := facts.1 r hin j hj hroot
+    exact ⟨this.1, this.2.1⟩
 
 end
